@@ -72,7 +72,7 @@ package electreIII
 //@             && result.C == conc(c2Val - c1Val, present(ths.Q), thr(ths.Q, c1Val * model.mult(*c)), present(ths.P), thr(ths.P, c1Val * model.mult(*c)))
 //@             && result.D == disc(c2Val - c1Val, present(ths.Q), thr(ths.Q, c1Val * model.mult(*c)), present(ths.P), thr(ths.P, c1Val * model.mult(*c)), present(ths.V), thr(ths.V, c1Val * model.mult(*c)))
 
-//@ lemma [C05 C06] indices_monotone_in_difference: forall d1 real, d2 real, hq bool, q real, hp bool, p real, hv bool, v real
+//@ lemma [C06] indices_monotone_in_difference: forall d1 real, d2 real, hq bool, q real, hp bool, p real, hv bool, v real
 //@   requires d1 <= d2 && (hq ==> q >= 0.0) && (hp ==> p > (hq ? q : 0.0)) && (hv ==> hp && v > p)
 //@   ensures  conc(d1, hq, q, hp, p) >= conc(d2, hq, q, hp, p)
 //@   ensures  disc(d1, hq, q, hp, p, hv, v) <= disc(d2, hq, q, hp, p, hv, v)
@@ -189,12 +189,16 @@ package electreIII
 // and distillate does not terminate (the termination argument itself is not mechanised; this is its precondition)
 //@ pred nonnegOnUnit(f utils.LinearFunctionParameters) = f.B >= 0.0 && f.A + f.B >= 0.0
 
-//@ lemma [C20 C05] nonneg_on_unit_interval: forall f utils.LinearFunctionParameters, x real
+//@ lemma [C05] nonneg_on_unit_interval: forall f utils.LinearFunctionParameters, x real
 //@   requires nonnegOnUnit(f) && 0.0 <= x && x <= 1.0
 //@   ensures  f.A * x + f.B >= 0.0
 
 //@ func getDistillationFunc
 //@   property C20 C05 C07
+//@   panics_iff [negative_somewhere_on_the_unit_interval] "electreDistillation" in dm.MethodParameters
+//@             && ((decoded_has(dm.MethodParameters["electreDistillation"], "B") ? decoded_real(dm.MethodParameters["electreDistillation"], "B") : 0.0) < 0.0
+//@                 || (decoded_has(dm.MethodParameters["electreDistillation"], "A") ? decoded_real(dm.MethodParameters["electreDistillation"], "A") : 0.0)
+//@                    + (decoded_has(dm.MethodParameters["electreDistillation"], "B") ? decoded_real(dm.MethodParameters["electreDistillation"], "B") : 0.0) < 0.0)
 //@   ensures [nonneg_distillation] result != nil && nonnegOnUnit(*result)
 //@   ensures [as_requested_zero_for_an_omitted_coefficient] "electreDistillation" in dm.MethodParameters ==>
 //@             result.A == (decoded_has(dm.MethodParameters["electreDistillation"], "A") ? decoded_real(dm.MethodParameters["electreDistillation"], "A") : 0.0)
@@ -468,21 +472,27 @@ package electreIII
 //@ wire ElectreIIIInputParams
 //@   property C01 C05 C06 C20
 //@   json Criteria=criteria DistillationFun=distillationFun,omitempty
+//@   gotypes Criteria=ElectreCriteria DistillationFun=utils.LinearFunctionParameters
 //@ wire ElectreResult
 //@   property C01 C05 C06 C20
 //@   json C=c D=d
+//@   gotypes C=float64 D=float64
 //@ wire ElectreCriterion
 //@   property C01 C05 C06 C20
 //@   json K=k Q=q P=p V=v
+//@   gotypes K=float64 Q=utils.LinearFunctionParameters P=utils.LinearFunctionParameters V=utils.LinearFunctionParameters
 //@ wire AlternativesMatrix
 //@   property C01 C05 C06 C20
 //@   json Alternatives=alternatives Values=values
+//@   gotypes Alternatives=*Alternatives Values=*Matrix
 //@ wire electreIIIParams
 //@   property C01 C05 C20
 //@   json Criteria=criteria DistillationFun=distillationFun,omitempty
+//@   gotypes Criteria=*ElectreCriteria DistillationFun=*utils.LinearFunctionParameters
 //@ wire ElectreIIIEvaluation
 //@   property C01 C05 C06 C20
 //@   json AscendingIndex=ascendingIndex DescendingIndex=descendingIndex
+//@   gotypes AscendingIndex=int DescendingIndex=int
 
 // ---- registered names (what a request must say to select this object; what error messages list)
 //@ func (*ElectreIIIBiasLIstener).Identifier
